@@ -253,6 +253,82 @@ fn check_base(acc: &mut Stats, name: &str, full: &Program) {
     }
 }
 
+/// surface templates with annotation sites written as `{{annotated||erased}}`: material that follows a site on the
+/// same line (one-line functions and branches with `<!>` / `<=>`, strings that span lines, comments, non-ASCII)
+const TEXT_TEMPLATES: &[(&str, &str)] = &[
+    (
+        "one-line-functions-and-branches",
+        "print: fn *X -> void : external\nf :: fn a{{: int||}}, b{{: str||}} do <!> end\ng :: fn a{{: int||}} do a <=> 1 end\nh :: fn a{{: int||}}, b{{: int||}} -> a + b end\nstart :: fn do\n    x{{: int = || := }}(if false do <!> else 1 end)\n    y{{: int : || :: }}h(x, 2)\n    g(1)\n    if y < 0 do f(1, \"s\") end\n    print(x + y)\nend\n",
+    ),
+    (
+        "sites-before-multi-line-and-non-ascii-text",
+        "print: fn *X -> void : external\nk{{: str : || :: }}\"é\nü\" // ü\nstart :: fn do\n    s{{: str = || := }}\"a\nb\" + k\n    t{{: (int, str) : || :: }}(1, \"ö\") // c\n    if t[0] > 5 do <!> end\n    w :: fn q{{: int||}} -> q + 1 end\n    print(s)\n    print(w(t[0]))\n    if s == \"\" do <!> end\nend\n",
+    ),
+    (
+        "sites-in-nested-one-line-closures",
+        "print: fn *X -> void : external\nstart :: fn do\n    mk :: fn a{{: int||}} -> fn b{{: int||}} -> fn c{{: int||}} do if a + b + c < 0 do <!> end end end end\n    mk(1)(2)(3)\n    z{{: bool = || := }}(1 <=> 1)\n    print(z)\nend\n",
+    ),
+];
+
+fn check_text_templates(acc: &mut Stats) {
+    for (name, tpl) in TEXT_TEMPLATES {
+        // split into literal pieces and sites
+        let mut pieces: Vec<(String, Option<(String, String)>)> = Vec::new();
+        let mut rest = *tpl;
+        while let Some(p) = rest.find("{{") {
+            let q = rest[p..].find("}}").expect("site end") + p;
+            let inner = &rest[p + 2..q];
+            let (a, e) = inner.split_once("||").expect("site");
+            pieces.push((rest[..p].to_string(), Some((a.to_string(), e.to_string()))));
+            rest = &rest[q + 2..];
+        }
+        pieces.push((rest.to_string(), None));
+        let nsites = pieces.iter().filter(|p| p.1.is_some()).count();
+        let render = |mask: u32| -> String {
+            let mut out = String::new();
+            let mut i = 0;
+            for (lit, site) in &pieces {
+                out.push_str(lit);
+                if let Some((a, e)) = site {
+                    out.push_str(if mask >> i & 1 == 1 { a } else { e });
+                    i += 1;
+                }
+            }
+            out
+        };
+        let erased_text = render(0);
+        let ref_bytes = match compile_src(&erased_text) {
+            Outcome::Ok(b) => b,
+            other => {
+                eprintln!("MACHINERY: C08 text template {} does not compile un-annotated: {}", name, other.short());
+                std::process::exit(2);
+            }
+        };
+        acc.states += 1;
+        acc.nontrivial(fnv(erased_text.as_bytes()));
+        for mask in 1..(1u32 << nsites) {
+            let text = render(mask);
+            acc.evaluations += 1;
+            let fail = match compile_src(&text) {
+                Outcome::Ok(b) if b == ref_bytes => None,
+                Outcome::Ok(_) => Some(("annotation-changes-lua".to_string(), "the emitted Lua differs from that of the un-annotated program".to_string())),
+                Outcome::Err { errs, .. } => Some(("annotated-variant-rejected".to_string(), errs.first().map(|e| e.dbg.clone()).unwrap_or_default())),
+                Outcome::Panic { msg, .. } => Some(("panic".to_string(), msg.clone())),
+            };
+            match fail {
+                None => acc.outcome("accepted-same-bytes"),
+                Some((sig, detail)) => {
+                    acc.outcome(&sig);
+                    let mut files = serde_json::Map::new();
+                    files.insert(MAIN.to_string(), json!(text));
+                    acc.fail(Failure { sig, preds: vec![format!("base:text-template:{}", name)], detail: format!("annotated variant (mask {:b} of {} sites) of text template {}:\n{}\n{}\nun-annotated program:\n{}", mask, nsites, name, text, detail, erased_text), case: json!({"engine": "c08", "files": files, "erased": erased_text}), size: text.len() });
+                }
+            }
+        }
+        acc.count("text-template-sites", nsites as u64);
+    }
+}
+
 pub fn run(run: &mut Run) {
     let thorough = run.thorough();
     // (expression slice, with extra sites)
@@ -336,7 +412,12 @@ pub fn run(run: &mut Run) {
         check_base(&mut acc, name, &base);
         run.stats.merge(acc);
     }
-    run.rule = "base programs: for every type (int, float, bool, str, tuple, blob, enum, list) and every expression of that type with at most n operator nodes, a program with annotation sites on a global constant, a global variable, two parameters, a return type, a local in a function, two locals in start (thorough: also a closure's parameter and return type); every subset of the 8 (10) sites is compiled; non-trivial = base accepted; distinct by base text".into();
+    {
+        let mut acc = Stats::new();
+        check_text_templates(&mut acc);
+        run.stats.merge(acc);
+    }
+    run.rule = "base programs: for every type (int, float, bool, str, tuple, blob, enum, list) and every expression of that type with at most n operator nodes, a program with annotation sites on a global constant, a global variable, two parameters, a return type, a local in a function, two locals in start (thorough: also a closure's parameter and return type); every subset of the 8 (10) sites is compiled; plus three surface templates in which one-line functions and branches with `<!>` / `<=>`, strings spanning lines, comments and non-ASCII text follow annotation sites on the same line (all subsets of their 7 / 4 / 4 sites); non-trivial = base accepted; distinct by base text".into();
     run.bounds = json!({"max_expression_size": if thorough {2} else {1}, "sites": if thorough {"10 for size<=1, 8 for size 2"} else {"8"}});
     run.assumptions = vec![
         "annotations are placed with the types the generator constructed the terms at (type-directed generation), so every annotation is correct".into(),
